@@ -31,12 +31,12 @@ def select_fields(fields, resources=None, regex=True):
                 )
                 new_fields = []
                 for selected_field in fields:
-                    selected_field = re.compile('^(?:{})\\Z'.format(
+                    selected_field = re.compile(
                         selected_field
                         if regex
-                        else re.escape(selected_field)))
+                        else re.escape(selected_field))
                     for name in list(dp_fields.keys()):
-                        if selected_field.match(name):
+                        if selected_field.fullmatch(name):
                             new_fields.append(dp_fields.pop(name))
                             configuration[resource['name']].add(name)
 
